@@ -242,42 +242,44 @@ impl MapSpec {
             }
             let hs = o.sound;
             let ts = if self.frac_tenths == 0 { t.to_string() } else { format!("{t}.{}", self.frac_tenths) };
+            // (positions too: the editor writes fractional coordinates after rotating or scaling a selection)
+            let (xs, ys) = if self.frac_tenths == 0 { (x.to_string(), y.to_string()) } else { (format!("{x}.{}", self.frac_tenths), format!("{y}.{}", self.frac_tenths)) };
             match o.kind {
                 Kind::Circle => {
-                    let _ = writeln!(s, "{x},{y},{ts},1,{hs},0:0:0:0:");
+                    let _ = writeln!(s, "{xs},{ys},{ts},1,{hs},0:0:0:0:");
                 }
                 Kind::Slider1 => {
-                    let _ = writeln!(s, "{x},{y},{ts},2,{hs},L|{}:{y},1,70", x + 70);
+                    let _ = writeln!(s, "{xs},{ys},{ts},2,{hs},L|{}:{y},1,70", x + 70);
                 }
                 Kind::Slider2 => {
-                    let _ = writeln!(s, "{x},{y},{ts},2,{hs},L|{}:{y},2,70", x + 70);
+                    let _ = writeln!(s, "{xs},{ys},{ts},2,{hs},L|{}:{y},2,70", x + 70);
                 }
                 Kind::Buzz => {
-                    let _ = writeln!(s, "{x},{y},{ts},2,{hs},L|{}:{y},4,35", x + 35);
+                    let _ = writeln!(s, "{xs},{ys},{ts},2,{hs},L|{}:{y},4,35", x + 35);
                 }
                 Kind::SliderLong => {
-                    let _ = writeln!(s, "{x},{y},{ts},2,{hs},B|{}:{}|{}:{y},1,280", x + 140, y + 40, x + 280);
+                    let _ = writeln!(s, "{xs},{ys},{ts},2,{hs},B|{}:{}|{}:{y},1,280", x + 140, y + 40, x + 280);
                 }
                 Kind::Slider5 => {
-                    let _ = writeln!(s, "{x},{y},{ts},2,{hs},L|{}:{y},5,140", x + 140);
+                    let _ = writeln!(s, "{xs},{ys},{ts},2,{hs},L|{}:{y},5,140", x + 140);
                 }
                 Kind::SliderTiny => {
-                    let _ = writeln!(s, "{x},{y},{ts},2,{hs},L|{}:{y},1,10", x + 10);
+                    let _ = writeln!(s, "{xs},{ys},{ts},2,{hs},L|{}:{y},1,10", x + 10);
                 }
                 Kind::SliderZeroRep => {
-                    let _ = writeln!(s, "{x},{y},{ts},2,{hs},L|{x}:{y},4,0");
+                    let _ = writeln!(s, "{xs},{ys},{ts},2,{hs},L|{x}:{y},4,0");
                 }
                 Kind::SliderLen(px) => {
-                    let _ = writeln!(s, "{x},{y},{ts},2,{hs},L|{}:{y},1,{px}", x + i32::from(px));
+                    let _ = writeln!(s, "{xs},{ys},{ts},2,{hs},L|{}:{y},1,{px}", x + i32::from(px));
                 }
                 Kind::SliderPerfect => {
-                    let _ = writeln!(s, "{x},{y},{ts},2,{hs},P|{}:{}|{}:{y},1,100", x + 50, y + 30, x + 95);
+                    let _ = writeln!(s, "{xs},{ys},{ts},2,{hs},P|{}:{}|{}:{y},1,100", x + 50, y + 30, x + 95);
                 }
                 Kind::Spinner(len) => {
                     let _ = writeln!(s, "256,192,{ts},12,{hs},{}", t + i64::from(len));
                 }
                 Kind::Hold(len) => {
-                    let _ = writeln!(s, "{x},{y},{ts},128,{hs},{}:0:0:0:0:", t + i64::from(len));
+                    let _ = writeln!(s, "{xs},{ys},{ts},128,{hs},{}:0:0:0:0:", t + i64::from(len));
                 }
             }
         }
